@@ -62,7 +62,7 @@ func LoadProg(repo string, tests bool, tags string, overlay map[string][]byte) (
 	if tags != "" {
 		cfg.BuildFlags = []string{"-tags=" + tags}
 	}
-	pkgs, err := packages.Load(cfg, "./...")
+	pkgs, err := packages.Load(cfg, "./...", "github.com/prometheus/prometheus/model/rulefmt")
 	if err != nil {
 		return nil, fmt.Errorf("load: %w", err)
 	}
